@@ -327,9 +327,30 @@ func (c *Ctx) ruleLifecycleHelpers(rule string) {
 		branches := 0
 		eachInstr(f, func(in ssa.Instruction) {
 			if iff, isIf := in.(*ssa.If); isIf {
-				// the only branch allowed is the range loop's own
+				// the only branches allowed are the range loop's own and a test that sets the
+				// empty map apart (its other edge must go on to the loop)
 				if _, isExt := x.Origin(iff.Cond).(*ssa.Extract); !isExt {
-					branches++
+					okEmpty := false
+					if arg, tlo, thi, flo, fhi, isLT := x.lenTest(iff.Cond); isLT && x.Origin(arg) == ssa.Value(f.Params[0]) && len(iff.Block().Succs) == 2 {
+						var other *ssa.BasicBlock
+						switch {
+						case tlo == 0 && thi == 0:
+							other = iff.Block().Succs[1]
+						case flo == 0 && fhi == 0:
+							other = iff.Block().Succs[0]
+						}
+						if other != nil && len(other.Instrs) > 0 {
+							isNext := func(i2 ssa.Instruction) bool { _, n := i2.(*ssa.Next); return n }
+							if isNext(other.Instrs[0]) {
+								okEmpty = true
+							} else if _, reach := pathFrom(other.Instrs[0], isNext, nil); reach {
+								okEmpty = true
+							}
+						}
+					}
+					if !okEmpty {
+						branches++
+					}
 				}
 			}
 			if st, isSt := in.(*ssa.Store); isSt {
